@@ -120,6 +120,21 @@ def run_numeric(prop, tier, ops, alphas, alpha_of_type, ralpha_of_type, unary32_
         # level 1 again, compiled by gcc -O2 (different folding of the macros)
         for part in chunks(l1, 8):
             jobs.append(('L1-gccO2', make_batch(part, alphas, alpha_of_type), {'cc': 'gcc', 'cflags': ('-O2',)}))
+    # level K: every opcode with CONSTANT operands (t.const immediates instead of parameters) over the reduced alphabets, compiled by optimising
+    # compilers: the optimiser evaluates the runtime macros at compile time, where undefined conversions and overflows are folded differently
+    # from what the machine instruction does at run time
+    import itertools
+    ktrees = []
+    for o in ops:
+        ps, r_ = numop_sig(o)
+        for vals in itertools.product(*[alphas[ralpha_of_type[t]] for t in ps]):
+            ktrees.append(('op', o, [('c', t, v) for t, v in zip(ps, vals)]))
+    for part in chunks(ktrees, 1500):
+        kb = make_batch(part, alphas, alpha_of_type, explicit_inputs=[[()]] * len(part))
+        jobs.append(('K-gccO2', kb, {'cc': 'gcc', 'cflags': ('-O2',), 'timeout': 1800}))
+        if tier == 'thorough':
+            jobs.append(('K-clangO2', kb, {'cc': 'clang', 'cflags': ('-O2',), 'timeout': 1800}))
+            jobs.append(('K-gccO1', kb, {'cc': 'gcc', 'cflags': ('-O1',), 'timeout': 1800}))
     # fallback (non-builtin) bit counting paths of the runtime header
     nb = [leaf_op(o) for o in ops if NUMOP_NAME[o].split('.')[1] in ('clz', 'ctz', 'popcnt')]
     if nb:
@@ -159,7 +174,7 @@ def run_numeric(prop, tier, ops, alphas, alpha_of_type, ralpha_of_type, unary32_
     chk.cov['levels'] = levels
     chk.cov['rule'] = ('every opcode of the set as a one-instruction function over the full cross product of the boundary alphabets (L1), '
                        'every type-correct composition of two opcodes in both operand positions over reduced alphabets (L2), '
-                       'L1 again (thorough: L2 too) translated with -p (pretty-printed output has its own branches in the expression writers); thorough: all 2^32 inputs of every unary opcode with a 32-bit operand (X32); a program is non-trivial iff the '
+                       'level K: every opcode with constant operands (immediates) over the reduced alphabets at gcc -O2 (thorough: clang -O2, gcc -O1 too); L1 again (thorough: L2 too) translated with -p (pretty-printed output has its own branches in the expression writers); thorough: all 2^32 inputs of every unary opcode with a 32-bit operand (X32); a program is non-trivial iff the '
                        'reference outcome (value/trap) is not constant over its inputs; ' + level_note)
     for t in l1[:3] + l2[:3]:
         chk.sample({'program': describe(t)})
